@@ -21,6 +21,7 @@ import (
 	"fmt"
 	"io"
 	"os"
+	"path/filepath"
 	"sort"
 	"strconv"
 	"strings"
@@ -105,7 +106,10 @@ func (u *universe) mt(s string) int {
 	return id
 }
 
-var fileNames = []string{"f1.txt", "dir/f2.bin", "f3", "dir/sub/f4.json"}
+// name 5 is a second name for the path of name 1 (the model's path_of)
+var fileNames = []string{"f1.txt", "dir/f2.bin", "f3", "dir/sub/f4.json", "./f1.txt"}
+
+func pathOfName(name string) string { return filepath.Clean(name) }
 
 // annID numbers annotation sets: 8*titleIndex + base set (0 none, 1, 2); 7 = unknown.
 func annID(d ocispec.Descriptor) int {
@@ -497,14 +501,18 @@ type reference struct {
 	names    map[string]bool   // file names pushed successfully
 	byDigest map[string]stored // content of named files by digest
 	named    []stored
+	noOverwrite bool
+	pathDigest  map[string]string // path -> digest of the named content written there
+	clobbered   map[string]bool   // digests whose file was overwritten/removed through an aliasing name
 }
 
 func newReference(kind string, u *universe) *reference {
 	r := &reference{kind: kind, u: u, content: map[string]stored{}, tags: map[string]ocispec.Descriptor{},
-		names: map[string]bool{}, byDigest: map[string]stored{}}
+		names: map[string]bool{}, byDigest: map[string]stored{}, pathDigest: map[string]string{}, clobbered: map[string]bool{}}
 	if strings.HasPrefix(kind, "file") {
 		r.isFile = true
 		r.ignore = kind[4] == '1'
+		r.noOverwrite = kind[5] == '1'
 	}
 	return r
 }
@@ -592,11 +600,23 @@ func (r *reference) judge(o Op, res result) *failure {
 				if !errors.Is(res.err, file.ErrDuplicateName) {
 					return fail("push-duplicate-name", "push %s under an existing name returned %v, want duplicate-name", o, res.err)
 				}
+			case r.pathDigest[pathOfName(name)] != "" && r.noOverwrite:
+				// a second name for a path that already holds a file: DisableOverwrite refuses it
+				if !errors.Is(res.err, file.ErrOverwriteDisallowed) {
+					return fail("push-alias-overwrite", "push %s onto an existing path with DisableOverwrite returned %v", o, res.err)
+				}
 			case !valid:
 				if res.err == nil {
 					return fail("push-invalid-accepted", "push %s with bytes not matching the descriptor was accepted", o)
 				}
+				if victim := r.pathDigest[pathOfName(name)]; victim != "" {
+					r.clobbered[victim] = true // os.Create truncated the other name's file
+				}
 			default:
+				if victim := r.pathDigest[pathOfName(name)]; victim != "" && victim != string(d.Digest) {
+					r.clobbered[victim] = true // the other name's file is overwritten
+				}
+				r.pathDigest[pathOfName(name)] = string(d.Digest)
 				if errors.Is(res.err, file.ErrOverwriteDisallowed) {
 					return fail("failed-push-left-file", "push %s refused with overwrite-disallowed: an earlier failed push left a file behind", o)
 				}
@@ -654,6 +674,12 @@ func (r *reference) judge(o Op, res result) *failure {
 		if !present {
 			if !errors.Is(res.err, errdef.ErrNotFound) {
 				return fail("fetch-absent", "fetch of absent %s: %s, want not-found", o, res.tok)
+			}
+			return nil
+		}
+		if r.isFile && r.clobbered[string(d.Digest)] {
+			if res.err != nil || !bytes.Equal(res.bytes, st.bytes) {
+				return fail("file-name-alias-overwrite", "fetch %s => %s: a push under a second name for the same path overwrote (or removed) the file this digest points to", o, res.tok)
 			}
 			return nil
 		}
@@ -802,7 +828,11 @@ func (u *universe) probeOps(kind string) []Op {
 			ops = append(ops, Op{K: "E", Node: i, Var: v}, Op{K: "F", Node: i, Var: v})
 		}
 		if strings.HasPrefix(kind, "file") {
-			for _, nm := range []int{homeName(i), (homeName(i) + 1) % 5} {
+			cand := []int{homeName(i), (homeName(i) + 1) % 5}
+			if homeName(i) == 1 {
+				cand = append(cand, 5)
+			}
+			for _, nm := range cand {
 				if nm != 0 {
 					ops = append(ops, Op{K: "E", Node: i, Name: nm}, Op{K: "F", Node: i, Name: nm})
 				}
@@ -934,7 +964,7 @@ func genOp(r *common.Rand, u *universe, kind string, h *hint) Op {
 	if isFile && (o.K == "P" || o.K == "F" || o.K == "E" || o.K == "T") {
 		o.Name = homeName(node)
 		if r.Chance(1, 4) {
-			o.Name = r.Intn(5)
+			o.Name = r.Intn(6) // includes the aliasing name 5 now and then
 		}
 	}
 	switch {
@@ -1010,13 +1040,17 @@ func seqHistory(h histSpec) {
 		sampled := i%run.Scale(3, 10) == 0 || i == len(ops)-1
 		if sampled {
 			if f := readBack(); f != nil {
-				report(&failure{"state-" + f.sig, fmt.Sprintf("state read back before step %d: %s", i, f.msg)}, i)
+				report(&failure{f.sig, fmt.Sprintf("state read back before step %d: %s", i, f.msg)}, i)
 			}
 		}
 		res := exec(o, i)
 		if sampled && res.err != nil {
 			if f := readBack(); f != nil {
-				report(&failure{"failed-op-changed-state", fmt.Sprintf("after failed %s => %s: %s", o, res.tok, f.msg)}, i)
+				sig := "failed-op-changed-state"
+				if f.sig == "file-name-alias-overwrite" {
+					sig = f.sig // the failed push went through the aliasing name: that mechanism
+				}
+				report(&failure{sig, fmt.Sprintf("after failed %s => %s: %s", o, res.tok, f.msg)}, i)
 			}
 		}
 	}
@@ -1046,6 +1080,9 @@ func concHistory(h histSpec) {
 		o := genOp(r, u, h.Kind, hn)
 		if o.K == "Q" || o.K == "E" || o.K == "L" {
 			o = genOp(r, u, h.Kind, hn) // bias towards state-changing operations
+		}
+		if o.Name == 5 {
+			o.Name = 1 // two names for one path race on the file itself (known finding): not mixed into the concurrency check
 		}
 		k := r.Intn(h.Thr)
 		threads[k] = append(threads[k], o)
